@@ -56,7 +56,59 @@ fn gen_case(r: &mut Rng, root: &str) -> Case {
     };
     let mut stdin = Vec::new();
     let mut ignore_order = false;
-    let cmd = match r.below(8) {
+    let cmd = match r.below(12) {
+        8 => {
+            // preallocate-then-overwrite shapes: `:`, brace group with `||`, fallocate/truncate,
+            // stderr to /dev/null, read-write redirection without truncation
+            let dst = format!("{root}/{}", pick_path(r));
+            let e = esc(&dst);
+            let n = r.urange(0, 120);
+            stdin = r.bytes(n);
+            let size = if r.below(3) == 0 { n + r.urange(1, 40) } else { n };
+            let claimed = if r.below(4) == 0 { size + 1 } else { size };
+            let reserve = match r.below(4) {
+                0 => String::new(),
+                1 => format!(" && {{ fallocate -l {size} $'{e}.copia-tmp' 2>/dev/null || truncate -s {size} $'{e}.copia-tmp'; }}"),
+                2 => format!(" && truncate -s {size} $'{e}.copia-tmp'"),
+                _ => format!(" && {{ false || truncate --size={size} $'{e}.copia-tmp'; }}"),
+            };
+            format!(": > $'{e}.copia-tmp'{reserve} && cat 1<> $'{e}.copia-tmp' && test \"$(wc -c < $'{e}.copia-tmp')\" -eq {claimed} && mv -fT $'{e}.copia-tmp' $'{e}'")
+        }
+        9 => {
+            // append, subshell with cd, grouping with `;`, status of a failing group
+            let dst = format!("{root}/{}", pick_path(r));
+            let e = esc(&dst);
+            let n = r.urange(0, 60);
+            stdin = r.bytes(n);
+            match r.below(4) {
+                0 => format!("cat >> $'{e}'"),
+                1 => format!("( cd $'{}' && cat > $'{e}.copia-tmp' ) && mv -f $'{e}.copia-tmp' $'{e}'; test -f $'{e}'", esc(root)),
+                2 => format!("{{ cat > $'{e}.copia-tmp'; test -d $'{e}'; }} || mv -fT $'{e}.copia-tmp' $'{e}'"),
+                _ => format!("{{ cat > $'{e}.copia-tmp' && false; }} && mv -f $'{e}.copia-tmp' $'{e}' || rm -f -- $'{e}.copia-tmp'"),
+            }
+        }
+        10 => {
+            // pipelines and stderr plumbing
+            let src = format!("{root}/{}", pick_path(r));
+            let e = esc(&src);
+            match r.below(4) {
+                0 => format!("cat $'{e}' | wc -c"),
+                1 => format!("cat $'{e}' 2>/dev/null | cat | wc -c"),
+                // (the text of a diagnostic is not compared, so it is kept out of the count)
+                2 => format!("{{ cat $'{e}' || echo gone; }} 2>/dev/null | wc -c > $'{}/count'; echo x 2>&1 | wc -c", esc(root)),
+                _ => format!("cat $'{e}' > /dev/null 2>&1 && echo ok || echo missing"),
+            }
+        }
+        11 => {
+            // a closing brace as an ordinary argument, quoted braces, `echo` into a file
+            let dst = format!("{root}/{}", pick_path(r));
+            let e = esc(&dst);
+            match r.below(3) {
+                0 => format!("echo }} {{ > $'{e}'"),
+                1 => format!("echo '{{' \"}}\" >> $'{e}'"),
+                _ => format!("test -e $'{e}' && {{ echo yes; echo again; }} > $'{e}.flag' || {{ echo no; }}"),
+            }
+        }
         0 => {
             ignore_order = true;
             format!("cd $'{}' && find . -type f -printf '%s\\t%T@\\t%p\\0'", esc(root))
